@@ -99,6 +99,24 @@ struct Cur {
     raw: bool,
 }
 
+/// A seekable source whose `read` returns at most `chunk` bytes per call.
+pub struct ShortSrc { inner: Cursor<Vec<u8>>, chunk: usize }
+impl ShortSrc {
+    pub fn new(b: Vec<u8>) -> ShortSrc {
+        let chunk = [usize::MAX, 1, 7, 4000][(crc32fast::hash(&b) % 4) as usize];
+        ShortSrc { inner: Cursor::new(b), chunk }
+    }
+}
+impl std::io::Read for ShortSrc {
+    fn read(&mut self, buf: &mut [u8]) -> std::io::Result<usize> {
+        let n = buf.len().min(self.chunk);
+        self.inner.read(&mut buf[..n])
+    }
+}
+impl std::io::Seek for ShortSrc {
+    fn seek(&mut self, p: std::io::SeekFrom) -> std::io::Result<u64> { self.inner.seek(p) }
+}
+
 #[derive(Clone)]
 pub struct RunOut {
     pub tokens: Vec<String>,
@@ -193,8 +211,12 @@ pub fn run_calls_sink<S: std::io::Read + Write + std::io::Seek + SinkInfo>(calls
     let mut out = RunOut { tokens: vec![], fin: None, comp: vec![], zc: vec![], expect: vec![], finished_ok: false, comment: vec![], end_pos: None };
     let mut sink = sink;
     let first: Vec<&str> = calls[0].split(',').collect();
-    let mut src_archives: Vec<Option<zip::ZipArchive<Cursor<Vec<u8>>>>> =
-        srcs.iter().map(|b| zip::ZipArchive::new(Cursor::new(b.clone())).ok()).collect();
+    // sources of raw copies sit behind a reader that delivers SHORT reads (a socket, a pipe, a chunking
+    // adapter): the `Read` contract allows them at any time, and a copy loop that takes a short read for the
+    // end of the data silently truncates the entry.  The chunk size is a function of the source bytes, so a
+    // replay of the same line behaves identically.
+    let mut src_archives: Vec<Option<zip::ZipArchive<ShortSrc>>> =
+        srcs.iter().map(|b| zip::ZipArchive::new(ShortSrc::new(b.clone())).ok()).collect();
     let mut panicked = false;
     let mut early: Option<bool> = None;
     'blk: {
@@ -701,6 +723,16 @@ impl Stream for WriteStream {
             let calls = rand_calls(&mut r, &srcs, base.as_ref(), misuse);
             let kind = if base.is_some() { "append" } else if misuse { "misuse" } else { "valid" };
             g.push(kind, make_line(&calls, &srcs));
+        }
+        // large incompressible contents in ONE write call through every compressing method: the encoder accepts
+        // only part of the buffer per `write`, `write_all` re-offers the rest, and every byte must be counted and
+        // hashed exactly once (noise of more than ~40 KiB for Deflate, ~3 MiB for Zstd and Bzip2)
+        let big: &[(u16, usize)] = if tier == "thorough" { &[(8, 70_000), (8, 300_000), (0, 70_000), (93, 3_300_000), (12, 3_300_000)] } else { &[(8, 70_000), (0, 70_000)] };
+        for (j, &(m, n)) in big.iter().enumerate() {
+            let mut r = super::rng_for(seed, "write.big", j as u64);
+            let o = Opts { method: m, level: None, dp: 0x21, tp: 0, perm: None, large: false, pw: None };
+            let calls = vec!["new".to_string(), format!("sf,{},{}", hex(b"big.bin"), o.tok()), format!("w,{}", hex(&r.bytes(n))), format!("sf,{},{}", hex(b"after"), o.tok()), format!("w,{}", hex(b"tail")), "fin".to_string()];
+            g.push("big", make_line(&calls, &[]));
         }
         gen_c02_limits(seed, tier, &mut g);
         g
